@@ -126,6 +126,7 @@ type Enc struct {
 	structs    map[string]*structInfo
 	compSort   map[string]string
 	nfresh     int
+	memCounter int
 	qual       types.Qualifier
 	boxed      map[string]bool
 	implFacts  map[string]bool
@@ -145,15 +146,23 @@ const smtHeader = `(set-option :produce-models true)
 (declare-datatypes ((Slice 0)) (((mkslice (sref Int) (soff Int) (slen Int) (scap Int)))))
 (declare-datatypes ((Any 0)) (((anil) (abool (tg0 Int) (abv Bool)) (aint (tg1 Int) (aiv Int)) (areal (tg2 Int) (arv Real)) (astr (tg3 Int) (asv Str)) (aref (tg4 Int) (arf Int)) (aslice (tg5 Int) (aslv Slice)) (abox (tg6 Int) (abx Int)))))
 (define-fun tagof ((a Any)) Int (ite ((_ is anil) a) 0 (ite ((_ is abool) a) (tg0 a) (ite ((_ is aint) a) (tg1 a) (ite ((_ is areal) a) (tg2 a) (ite ((_ is astr) a) (tg3 a) (ite ((_ is aref) a) (tg4 a) (ite ((_ is aslice) a) (tg5 a) (tg6 a)))))))))
+(define-fun slicewf ((s Slice)) Bool (and (>= (slen s) 0) (>= (scap s) (slen s)) (>= (soff s) 0) (>= (sref s) 0) (=> (= (sref s) 0) (and (= (slen s) 0) (= (scap s) 0)))))
+(declare-fun gorem (Int Int) Int)
+(declare-fun goquot (Int Int) Int)
 (declare-fun strlen (Str) Int)
 (declare-fun strcat (Str Str) Str)
 (declare-fun strlt (Str Str) Bool)
-(declare-fun gorem (Int Int) Int)
-(declare-fun goquot (Int Int) Int)
+;;AXIOMS
 (declare-fun at (Int Int) Int)
 (assert (forall ((o Int) (k Int)) (! (= (at o k) (+ o k)) :pattern ((at o k)))))
 (assert (forall ((o Int) (a Int) (k Int)) (! (= (at (at o a) k) (at o (+ a k))) :pattern ((at (at o a) k)))))
+(assert (forall ((a Any)) (! (slicewf (aslv a)) :pattern ((aslv a)))))
 (assert (forall ((s Str)) (! (>= (strlen s) 0) :pattern ((strlen s)))))
+`
+
+// coverAxioms replaces the quantified prelude axioms in cover (must-be-sat) queries: `at` is defined exactly,
+// the remaining axioms only constrain auxiliary values.
+const coverAxioms = `(define-fun at ((o Int) (k Int)) Int (+ o k))
 `
 
 func (e *Enc) decl(key, line string) {
@@ -204,9 +213,17 @@ func trunc(s string, n int) string {
 }
 
 // header returns everything that must precede a function script.
-func (e *Enc) header() string {
+func (e *Enc) header() string { return e.headerFor(false) }
+
+func (e *Enc) headerFor(cover bool) string {
 	var b strings.Builder
-	b.WriteString(smtHeader)
+	if cover {
+		i := strings.Index(smtHeader, ";;AXIOMS")
+		b.WriteString(smtHeader[:i])
+		b.WriteString(coverAxioms)
+	} else {
+		b.WriteString(smtHeader)
+	}
 	for _, d := range e.decls {
 		b.WriteString(d)
 		b.WriteByte('\n')
@@ -497,11 +514,9 @@ type Mem struct {
 	note   string
 }
 
-var memCounter int
-
 func (e *Enc) newMem(kind string, emit func(string)) *Mem {
-	memCounter++
-	return &Mem{id: memCounter, kind: kind, cache: map[string]Term{}, emit: emit, enc: e}
+	e.memCounter++
+	return &Mem{id: e.memCounter, kind: kind, cache: map[string]Term{}, emit: emit, enc: e}
 }
 
 func (m *Mem) get(comp string) Term {
@@ -562,7 +577,7 @@ func (m *Mem) get(comp string) Term {
 			for i := len(ts) - 2; i >= 0; i-- {
 				body = app("ite", m.conds[i], ts[i], body)
 			}
-			m.emit(fmt.Sprintf("(define-fun %s () %s %s)", n, sort, body))
+			m.emit(fmt.Sprintf("(declare-const %s %s)\n(assert (= %s %s))", n, sort, n, body))
 			t = n
 		}
 	}
@@ -572,6 +587,13 @@ func (m *Mem) get(comp string) Term {
 
 func (m *Mem) update(comp string, term Term) *Mem {
 	n := m.enc.newMem("upd", m.emit)
+	if strings.ContainsAny(term, "( ") {
+		// name every heap version: terms stay small and E-matching sees atoms
+		sort := m.enc.compSort[comp]
+		c := sym(fmt.Sprintf("%s@%d", comp, n.id))
+		m.emit(fmt.Sprintf("(declare-const %s %s)\n(assert (= %s %s))", c, sort, c, term))
+		term = c
+	}
 	n.parent, n.comp, n.term = m, comp, term
 	return n
 }
